@@ -4,8 +4,26 @@
 pub(crate) mod verif_probe {
     #[allow(unused_imports)]
     use super::*;
-    use serde_json::Value;
-    pub(crate) fn handle(_op: &str, _v: &Value) -> Option<Value> {
-        None
+    use serde_json::{json, Value};
+    use sqlparser::dialect::PostgreSqlDialect;
+    use sqlparser::parser::Parser;
+
+    pub(crate) fn handle(op: &str, v: &Value) -> Option<Value> {
+        match op {
+            "table_access" => {
+                let tables: Vec<String> = v["tables"].as_array().unwrap().iter().map(|x| x.as_str().unwrap().to_string()).collect();
+                let sql = v["sql"].as_str().unwrap();
+                let ast = match Parser::parse_sql(&PostgreSqlDialect {}, sql) { Ok(a) => a, Err(e) => return Some(json!({"parse_error": e.to_string()})) };
+                let mut relations = vec![];
+                sqlparser::ast::visit_relations(&ast, |r| { relations.push(r.0.iter().map(|i| json!({"value": i.value, "quoted": i.quote_style.is_some()})).collect::<Vec<Value>>()); core::ops::ControlFlow::<()>::Continue(()) });
+                let mut plugin = TableAccess { enabled: true, tables: &tables };
+                let qr = QueryRouter::new();
+                let rt = tokio::runtime::Builder::new_current_thread().enable_all().build().unwrap();
+                let out = rt.block_on(plugin.run(&qr, &ast));
+                let verdict = match out { Ok(PluginOutput::Allow) => "allow".to_string(), Ok(PluginOutput::Deny(m)) => format!("deny: {}", m), Ok(_) => "other".to_string(), Err(e) => format!("err: {:?}", e) };
+                Some(json!({"verdict": verdict, "relations": relations}))
+            }
+            _ => None,
+        }
     }
 }
